@@ -10,7 +10,7 @@ if [ "$N" != clean ]; then
 fi
 EV=$(mktemp -d /tmp/wt/try-ev.XXXX)
 S=$(date +%s)
-VERIF_REPO=$WT VERIF_EVIDENCE_DIR=$EV VERIF_RUNS=$RUN VERIF_OVERRIDE="{\"$RUN\": $J}" ${VERIF_CAP:+VERIF_CAP=$VERIF_CAP} ./check $PID >$EV/out 2>$EV/err
+VERIF_REPO=$WT VERIF_EVIDENCE_DIR=$EV VERIF_RUNS=$RUN VERIF_OVERRIDE="{\"$RUN\": $J}" ./check $PID >$EV/out 2>$EV/err
 RC=$?
 echo "TRY $N $PID run=$RUN $J exit=$RC wall=$(( $(date +%s)-S ))s states=$(jq -c .coverage.states $EV/$PID.json 2>/dev/null)"
 grep -A1 '^VIOLATION\|^INCONCLUSIVE\|^KNOWN' $EV/out | cut -c1-300 | head -8
